@@ -82,6 +82,7 @@ type Thread struct {
 	Panic     any
 	PanicAt   string
 	realGID   uint64
+	spawned   bool // created by Spawn while the execution was running (a goroutine of the code under test)
 }
 
 // Options of one scheduler instance.
@@ -184,6 +185,33 @@ func (s *Sched) Go(name string, f func()) *Thread {
 	t := &Thread{ID: len(s.threads), Name: name, wake: make(chan struct{}, 1), label: "start"}
 	s.threads = append(s.threads, t)
 	s.ready.Add(1)
+	s.start(t, f, true)
+	return t
+}
+
+// Spawn adopts a goroutine that the code under test starts while the execution is running (a `go`
+// statement rewritten by overlaygen into vrt.Go, a timer of the vtime shim): f becomes a further
+// controlled thread, enabled from the spawner's next scheduling point on. It reports false when
+// the caller is not a controlled thread of a live execution (the caller then starts a plain
+// goroutine). A spawned thread that is still blocked when every registered thread has finished
+// and nothing is enabled is a background loop at rest (the file watcher's event loop): that
+// ends the execution as quiescent, not as a deadlock.
+func Spawn(name string, f func()) bool {
+	s := active.Load()
+	if s == nil || s.aborted != "" || s.inPick || !s.started {
+		return false
+	}
+	cur := Current()
+	if cur == nil || cur != s.cur {
+		return false
+	}
+	t := &Thread{ID: len(s.threads), Name: name, wake: make(chan struct{}, 1), label: "start", spawned: true}
+	s.threads = append(s.threads, t)
+	s.start(t, f, false)
+	return true
+}
+
+func (s *Sched) start(t *Thread, f func(), initial bool) {
 	go func() {
 		g := tagCurrent(t.ID)
 		t.realGID = realGID()
@@ -192,7 +220,9 @@ func (s *Sched) Go(name string, f func()) *Thread {
 			s.gids.Delete(g)
 			untagCurrent()
 		}()
-		s.ready.Done()
+		if initial {
+			s.ready.Done()
+		}
 		<-t.wake
 		defer func() {
 			if r := recover(); r != nil {
@@ -218,7 +248,24 @@ func (s *Sched) Go(name string, f func()) *Thread {
 		}
 		f()
 	}()
-	return t
+}
+
+// quiescent is the internal abort reason of an execution that ended with nothing but spawned
+// background threads at rest; Run reports it as a normal end.
+const quiescent = "quiescent"
+
+// noneEnabled decides what "no enabled thread" means: rest or deadlock.
+func (s *Sched) noneEnabled() {
+	if s.aborted != "" {
+		return
+	}
+	for _, t := range s.threads {
+		if t.st != stFinished && !t.spawned {
+			s.abort("deadlock")
+			return
+		}
+	}
+	s.abort(quiescent)
 }
 
 // threadExit continues the unwinding of an aborted execution: the next unfinished thread is
@@ -274,8 +321,11 @@ func (s *Sched) Run() *Outcome {
 	s.waitDone()
 	active.Store(nil)
 	s.out.Aborted = s.aborted
+	if s.aborted == quiescent {
+		s.out.Aborted = ""
+	}
 	for _, t := range s.threads {
-		if t.cond != nil {
+		if t.cond != nil && !(t.spawned && s.aborted == quiescent) {
 			s.out.Blocked = append(s.out.Blocked, t.Name+"@"+t.label)
 		}
 	}
@@ -353,9 +403,7 @@ func (s *Sched) afterFinish(t *Thread) {
 	}
 	next := s.pick(t)
 	if next == nil {
-		if s.aborted == "" {
-			s.abort("deadlock")
-		}
+		s.noneEnabled()
 		s.threadExit()
 		return
 	}
@@ -564,9 +612,7 @@ func (s *Sched) park(t *Thread, label string, acc []Access) {
 	}
 	next := s.pick(t)
 	if next == nil {
-		if s.aborted == "" {
-			s.abort("deadlock")
-		}
+		s.noneEnabled()
 		panic(abortSignal{})
 	}
 	s.resume(t, next)
